@@ -468,10 +468,11 @@ func (db *TempPool) SuffrageExpelOperation(
 			switch ht, r, left, err := ReadFrameHeaderSuffrageExpelOperation(b); {
 			case err != nil:
 				return false, err
-			case !bytes.Equal(nodeb, r.Node()):
-				return true, nil
-			case r.End() < heighti, r.Start() > heighti:
+			case r.End() < heighti:
+				// NOTE descending by end; no record behind this one can cover the height
 				return false, nil
+			case !bytes.Equal(nodeb, r.Node()), r.Start() > heighti:
+				return true, nil
 			default:
 				enchint = ht
 				opb = left
@@ -534,8 +535,11 @@ func (db *TempPool) TraverseSuffrageExpelOperations(
 			switch enchint, r, opb, err := ReadFrameHeaderSuffrageExpelOperation(b); {
 			case err != nil:
 				return false, err
-			case r.End() < heighti, r.Start() > heighti:
+			case r.End() < heighti:
+				// NOTE descending by end; no record behind this one can cover the height
 				return false, nil
+			case r.Start() > heighti:
+				return true, nil
 			default:
 				if err := DecodeFrame(db.encs, enchint, opb, &op); err != nil {
 					return false, err
